@@ -307,6 +307,20 @@ def scan(repo):
                                     escapes.append((qual, full,
                                                     "shallow-copy",
                                                     sub.lineno))
+                # raising a shared exception object hands it to every
+                # handler up the stack (and accumulates its traceback)
+                if isinstance(sub, ast.Raise) and \
+                        isinstance(sub.exc, ast.Name) and \
+                        sub.exc.id in visible:
+                    escapes.append((qual, visible[sub.exc.id], "raise",
+                                    sub.lineno))
+                # returning or yielding one hands it to the caller
+                if isinstance(sub, (ast.Return, ast.Yield)) and \
+                        isinstance(sub.value, ast.Name) and \
+                        sub.value.id in visible and sub.value.id not in \
+                        bound:
+                    escapes.append((qual, visible[sub.value.id], "return",
+                                    sub.lineno))
                 if isinstance(sub, ast.Call) and \
                         isinstance(sub.func, ast.Attribute) and \
                         sub.func.attr in MUT_METHODS:
